@@ -224,56 +224,79 @@ func c20Lifecycle(chk *fw.Check) int {
 	p := world.Std()
 	n := 0
 	doc := world.SimpleCRL(p.CA, 1, 901).DER()
-	for _, disk := range []bool{false, true} {
-		for _, withCfg := range []bool{false, true} {
-			for k := 1; k <= 5; k++ {
-				n++
-				sig := fmt.Sprintf("backend=%s configured=%v", be(disk), withCfg)
-				res := seqWorld(func() {
-					dir := FreshDir("c20c")
-					defer os.RemoveAll(dir)
-					net := world.NewNet()
-					net.Serve(urlA, "doc", doc)
-					for cycle := 1; cycle <= k; cycle++ {
-						o := CWOpt{Disk: disk, SigMode: config.SignatureValidationModeVerify, Dir: dir, Net: net, Trusted: []*x509.Certificate{p.CA.Cert}, Interval: "10m"}
-						if withCfg {
-							o.URLs = []string{urlA}
-						}
-						w := NewCW(o)
-						if err := w.Provision(); err != nil {
-							chk.Violation("C20|cycle-provision-fails|"+sig, fmt.Sprintf("cycle %d of %d: Provision fails: %v", cycle, k, err), nil)
-							return
-						}
-						vsched.Drain()
-						leaf := world.Leaf(p.CA, bi(901), []string{urlA}, nil)
-						if v := w.Lookup(leaf, world.Chain(leaf, p.CA, p.Root)); v.String() != "REVOKED" {
-							chk.Violation("C20|cycle-lookup|"+sig, fmt.Sprintf("cycle %d: listed certificate => %s %s", cycle, v, v.Err), nil)
-						}
-						vsched.Drain()
-						hitsBefore := len(net.Hits)
-						if err := w.Chk.Cleanup(); err != nil {
-							chk.Violation("C20|cleanup-error|"+sig, err.Error(), nil)
-						}
-						vsched.Drain()
-						live, sites := vsched.Live()
-						if live > 0 {
-							chk.Violation("C20|background-activity-after-cleanup", fmt.Sprintf("%s cycle %d of %d: %d repository goroutine(s) still alive after Cleanup: %v", sig, cycle, k, live, sites), nil)
-						}
-						vsched.Advance(30 * time.Minute)
-						if len(net.Hits) != hitsBefore {
-							chk.Violation("C20|refresh-after-cleanup|"+sig, fmt.Sprintf("cycle %d: %d fetches after Cleanup when the clock advanced by 3 intervals", cycle, len(net.Hits)-hitsBefore), nil)
-						}
-						if reg := crl.VerifWorkDirsInUse()[dir]; reg != 0 {
-							chk.Violation("C20|work_dir-still-registered|"+sig, "work_dir registration not released by Cleanup", nil)
-						}
-						_, tmps, other := ListDir(dir)
-						if len(tmps) > 0 || len(other) > 0 {
-							chk.Violation("C20|residue-after-cleanup|"+sig, fmt.Sprintf("cycle %d: work_dir holds %v %v after Cleanup", cycle, tmps, other), nil)
-						}
+	// the work_dir as the configuration spells it: canonical, and three spellings of the same directory which are not
+	// in canonical form (whatever the registration does with the name, releasing it must undo it)
+	spellings := []struct {
+		name string
+		of   func(dir string) string
+	}{
+		{"canonical", func(d string) string { return d }},
+		{"trailing-slash", func(d string) string { return d + "/" }},
+		{"trailing-dot", func(d string) string { return d + "/." }},
+		{"dot-segment", func(d string) string { return filepath.Dir(d) + "/./" + filepath.Base(d) }},
+	}
+	for _, sp := range spellings {
+		for _, disk := range []bool{false, true} {
+			for _, withCfg := range []bool{false, true} {
+				for k := 1; k <= 5; k++ {
+					if sp.name != "canonical" && k != 2 && k != 3 {
+						continue
 					}
-				})
-				if res.Verdict != vsched.OK {
-					chk.Violation("C20|cycle-"+res.Verdict.String()+"|"+sig, firstLines(res.Detail, 5), nil)
+					n++
+					sp := sp
+					sig := fmt.Sprintf("backend=%s configured=%v", be(disk), withCfg)
+					if sp.name != "canonical" {
+						sig += " work_dir-spelling=" + sp.name
+					}
+					res := seqWorld(func() {
+						dir := FreshDir("c20c")
+						defer os.RemoveAll(dir)
+						cfgDir := sp.of(dir)
+						net := world.NewNet()
+						net.Serve(urlA, "doc", doc)
+						for cycle := 1; cycle <= k; cycle++ {
+							o := CWOpt{Disk: disk, SigMode: config.SignatureValidationModeVerify, Dir: cfgDir, Net: net, Trusted: []*x509.Certificate{p.CA.Cert}, Interval: "10m"}
+							if withCfg {
+								o.URLs = []string{urlA}
+							}
+							w := NewCW(o)
+							if err := w.Provision(); err != nil {
+								chk.Violation("C20|cycle-provision-fails|"+sig, fmt.Sprintf("cycle %d of %d: Provision fails: %v", cycle, k, err), nil)
+								return
+							}
+							vsched.Drain()
+							leaf := world.Leaf(p.CA, bi(901), []string{urlA}, nil)
+							if v := w.Lookup(leaf, world.Chain(leaf, p.CA, p.Root)); v.String() != "REVOKED" {
+								chk.Violation("C20|cycle-lookup|"+sig, fmt.Sprintf("cycle %d: listed certificate => %s %s", cycle, v, v.Err), nil)
+							}
+							vsched.Drain()
+							hitsBefore := len(net.Hits)
+							if err := w.Chk.Cleanup(); err != nil {
+								chk.Violation("C20|cleanup-error|"+sig, err.Error(), nil)
+							}
+							vsched.Drain()
+							live, sites := vsched.Live()
+							if live > 0 {
+								chk.Violation("C20|background-activity-after-cleanup", fmt.Sprintf("%s cycle %d of %d: %d repository goroutine(s) still alive after Cleanup: %v", sig, cycle, k, live, sites), nil)
+							}
+							vsched.Advance(30 * time.Minute)
+							if len(net.Hits) != hitsBefore {
+								chk.Violation("C20|refresh-after-cleanup|"+sig, fmt.Sprintf("cycle %d: %d fetches after Cleanup when the clock advanced by 3 intervals", cycle, len(net.Hits)-hitsBefore), nil)
+							}
+							for name, reg := range crl.VerifWorkDirsInUse() {
+								if reg != 0 {
+									chk.Violation("C20|work_dir-still-registered|"+sig, fmt.Sprintf("work_dir registration %q not released by Cleanup", name), nil)
+								}
+							}
+							_, tmps, other := ListDir(dir)
+							if len(tmps) > 0 || len(other) > 0 {
+								chk.Violation("C20|residue-after-cleanup|"+sig, fmt.Sprintf("cycle %d: work_dir holds %v %v after Cleanup", cycle, tmps, other), nil)
+							}
+						}
+					})
+					if res.Verdict != vsched.OK {
+						chk.Violation("C20|cycle-"+res.Verdict.String()+"|"+sig, firstLines(res.Detail, 5), nil)
+					}
 				}
 			}
 		}
